@@ -154,7 +154,15 @@ func CurrentProc() string {
 
 var rootGoid atomic.Int64
 
+// FreeRun turns every yield into a no-op while counters, traces and fault plans keep working. Used
+// where a task must feed a real subprocess that another task is waiting for (a parked feeder and
+// a waiter blocked in wait4 would never reach quiescence).
+var FreeRun bool
+
 func park(t *Tok, site string, res unsafe.Pointer, ver uint64) {
+	if FreeRun && res == nil {
+		return
+	}
 	if t.isRoot {
 		return // the scheduler's own goroutine never parks: instrumented calls made from it run straight through
 	}
